@@ -500,7 +500,7 @@ func c10R5(c *Ctx, r *Report) {
 		return
 	}
 	written := map[string]bool{}
-	for _, call := range c.Calls(wr, true, nameIs("(*strings.Builder).WriteString")) {
+	for _, call := range c.CallsThroughHelpers(wr, 2, nameIs("(*strings.Builder).WriteString")) {
 		if s, ok := constString(call.Common().Args[1]); ok {
 			written[s] = true
 		}
